@@ -19,6 +19,8 @@
 import Gama.Lemmas.SparseBasic
 import Gama.Lemmas.SparseCountingSort
 import Gama.Lemmas.SparseBuild
+import Gama.Lemmas.SparseGrow
+import Gama.Gen.SparseMembers
 import Gama.Lemmas.GraphAdj
 import Gama.Lemmas.Reach
 import Gama.Lemmas.RCMPerm
@@ -115,6 +117,99 @@ theorem C16_stable_sort_spec {K : Type} (cols : Nat) (row : List (Nat × K))
 example : SMat.exA.WF ∧ SMat.exA.transpose.cind = #[3, 1, 3, 3, 1] := by
   refine ⟨?_, by decide⟩
   constructor <;> decide
+
+/-! ## The build machine: fill, replicate into a larger object, CONTINUE the fill
+
+`replicate(n, r, c)` is a step of the build (Model/SparseOps.lean): the caller goes on calling
+`new_row()/add_element()` on the replica.  The statements above treat `replicate` as a function on a
+finished matrix; the ones below follow the cursors `rcnt_`, `rnxt_`, `ncnt_` through the hand-over. -/
+
+/-- **fill `pre` → `replicate(n, r, c)` → fill `rs`.**  For every prefix of rows, every replica
+    capacity that holds all rows (`r` rows exactly, `n` entries at least) and every continuation:
+    each of the C++ calls is defined (the machine does not stop), and the final object is well formed,
+    holds exactly the rows `pre ++ rs` — the rows of the prefix extended by the appended rows, i.e.
+    the same rows as a build of `pre ++ rs` in one go — and so does its transpose. -/
+theorem C16_replicate_then_append {K : Type} [Inhabited K] (floats rows cols : Nat)
+    (pre rs : List (List (Nat × K))) (n r c : Nat)
+    (hk : pre.length ≤ rows) (hf : pre.flatten.length ≤ floats)
+    (hr : (pre ++ rs).length = r) (hn : (pre ++ rs).flatten.length ≤ n)
+    (hc : SMat.ColsIn c (pre ++ rs)) :
+    ∃ B : SMat K,
+      SMat.runOps? (SMat.new floats rows cols)
+        (pre.flatMap SMat.rowOps ++ SMat.BuildOp.replicate n r c :: rs.flatMap SMat.rowOps) = some B ∧
+      B = rs.foldl SMat.pushRow ((SMat.build floats rows cols pre).replicate n r c) ∧
+      B.WF ∧ B.rows = r ∧ B.cols = c ∧
+      B.toRows = pre ++ rs ∧
+      B.toRows = (SMat.build n r c (pre ++ rs)).toRows ∧
+      B.entries = SMat.entriesOf (pre ++ rs) ∧
+      B.transpose.toRows = SMat.transposeRows c (pre ++ rs) ∧
+      B.transpose.toRows = (SMat.build n r c (pre ++ rs)).transpose.toRows := by
+  obtain ⟨hB, hrun⟩ := SMat.replicate_then_append floats rows cols pre rs n r c hk hf (by omega) hn
+  have hrows : (pre ++ rs).length = (rs.foldl SMat.pushRow ((SMat.build floats rows cols pre).replicate n r c)).rows := by
+    rw [hB.rows_eq, hr]
+  have hwf := hB.lay.WF hrows (by rw [hB.cols_eq]; exact hc)
+  have htr := hB.lay.toRows hrows
+  have hone := SMat.build_built n r c (pre ++ rs) (by omega) hn
+  have hone_rows : (SMat.build n r c (pre ++ rs)).toRows = pre ++ rs :=
+    hone.lay.toRows (by rw [hone.rows_eq, hr])
+  have hone_wf : (SMat.build n r c (pre ++ rs)).WF := SMat.build_WF n r c (pre ++ rs) hr hn hc
+  refine ⟨_, hrun, rfl, hwf, hB.rows_eq, hB.cols_eq, htr, by rw [htr, hone_rows], ?_, ?_, ?_⟩
+  · rw [SMat.entries_eq_entriesOf, htr]
+  · rw [SMat.transpose_toRows _ hwf, htr, hB.cols_eq]
+  · rw [SMat.transpose_toRows _ hwf, SMat.transpose_toRows _ hone_wf, htr, hone_rows, hB.cols_eq, hone.cols_eq]
+
+/-- the invariant that makes it work, for ANY number of hand-overs: a build in progress
+    (`Built`: rows so far laid out, `rnxt_ = rows so far + 1`, capacities) stays a build in progress —
+    with the new capacities — under `replicate(n, r, c)` whenever the rows so far fit, and the call
+    is defined. -/
+theorem C16_replicate_keeps_build {K : Type} [Inhabited K] {floats rows cols : Nat}
+    {rs : List (List (Nat × K))} {A : SMat K} (h : SMat.Built floats rows cols rs A) (n r c : Nat)
+    (hr : rs.length ≤ r) (hn : rs.flatten.length ≤ n) :
+    SMat.Built n r c rs (A.replicate n r c) ∧ A.canReplicate n r = true :=
+  h.replicate n r c hr hn
+
+/-- non-vacuity: one row in a 1-row object, replica with room for three rows and four columns,
+    two more rows (one empty) appended -/
+example : (SMat.runOps? (SMat.new 1 1 2 : SMat Nat)
+      (SMat.rowOps [(2, 5)] ++ SMat.BuildOp.replicate 4 3 4 :: [[], [(4, 7), (1, 8)]].flatMap SMat.rowOps)).map SMat.toRows
+    = some [[(2, 5)], [], [(4, 7), (1, 8)]] := by decide
+
+/-- **The variant that leaves `rnxt_ = 1` in the replica fails** (what
+    `C16_replicate_then_append` excludes): the replica reads back correctly, but the first row
+    appended to it is lost — its entries are counted into `rptr[2]`, the end of row 1. -/
+example :
+    let A : SMat Nat := SMat.build 2 2 2 [[(1, 5)], [(2, 6)]]
+    (A.replicateStaleCursor 4 3 2).rowEntries 1 = [(1, 5)] ∧
+    (A.replicateStaleCursor 4 3 2).rowEntries 2 = [(2, 6)] ∧
+    (((A.replicateStaleCursor 4 3 2).pushRow [(1, 7)]).toRows ≠ [[(1, 5)], [(2, 6)], [(1, 7)]]) ∧
+    (((A.replicate 4 3 2).pushRow [(1, 7)]).toRows = [[(1, 5)], [(2, 6)], [(1, 7)]]) := by decide
+
+/-- **Tie of the model's `replicate` to the regenerated member table** (`Gen/SparseMembers.lean`,
+    from smatrix.h on every run): the state `SMat` stands for exactly the data members of the class, and
+    every scalar member / array of the model's replica is what the C++ `replicate` (constructor
+    included) makes of it.  A member that `replicate` stops copying, or a new member, breaks this. -/
+theorem C16_replicate_members {K : Type} [Inhabited K] (A : SMat K) (n r c : Nat) :
+    Gen.SparseMembers.members = SMat.modelMembers ∧
+    (let s : Gen.SparseMembers.Scalars := ⟨A.rows, A.cols, A.rcnt, A.rnxt, A.ncnt⟩
+     let g := Gen.SparseMembers.replicateScalars s n r c
+     let cp := Gen.SparseMembers.replicateCopy s
+     let al := Gen.SparseMembers.ctorAlloc n r c
+     (A.replicate n r c).rows = g.rows ∧ (A.replicate n r c).cols = g.cols ∧
+     (A.replicate n r c).rcnt = g.rcnt ∧ (A.replicate n r c).rnxt = g.rnxt ∧
+     (A.replicate n r c).ncnt = g.ncnt ∧
+     (A.replicate n r c).rptr = SMat.copyInto A.rptr cp.rptr al.rptr ∧
+     (A.replicate n r c).nonz = SMat.copyInto A.nonz cp.nonz al.nonz ∧
+     (A.replicate n r c).cind = SMat.copyInto A.cind cp.cind al.cind) ∧
+    (let g0 := Gen.SparseMembers.ctorScalars n r c
+     let al := Gen.SparseMembers.ctorAlloc n r c
+     (SMat.new n r c : SMat K).rows = g0.rows ∧ (SMat.new n r c : SMat K).cols = g0.cols ∧
+     (SMat.new n r c : SMat K).rcnt = g0.rcnt ∧ (SMat.new n r c : SMat K).rnxt = g0.rnxt ∧
+     (SMat.new n r c : SMat K).ncnt = g0.ncnt ∧
+     (SMat.new n r c : SMat K).rptr.size = al.rptr ∧ (SMat.new n r c : SMat K).nonz.size = al.nonz ∧
+     (SMat.new n r c : SMat K).cind.size = al.cind) :=
+  ⟨by decide, ⟨rfl, rfl, rfl, rfl, rfl, rfl, rfl, rfl⟩,
+   ⟨rfl, rfl, rfl, rfl, rfl, by simp [SMat.new, Gen.SparseMembers.ctorAlloc],
+    by simp [SMat.new, Gen.SparseMembers.ctorAlloc], by simp [SMat.new, Gen.SparseMembers.ctorAlloc]⟩⟩
 
 /-! ## Graph of a sparse matrix -/
 
